@@ -17,7 +17,8 @@ theorem unlinkChain_fields (t : PTable) (item : Nat) :
           ((t.unlinkChain item).items j).key = (t.items j).key ∧ ((t.unlinkChain item).items j).value = (t.items j).value) ∧
     (t.unlinkChain item).self = t.self ∧ (t.unlinkChain item).cap = t.cap ∧ (t.unlinkChain item).allocated = t.allocated ∧
     (t.unlinkChain item).begin = t.begin ∧ (t.unlinkChain item).endPrev = t.endPrev ∧ (t.unlinkChain item).size = t.size ∧
-    (t.unlinkChain item).freeItem = t.freeItem ∧ (t.unlinkChain item).blocks = t.blocks := by
+    (t.unlinkChain item).freeItem = t.freeItem ∧ (t.unlinkChain item).blocks = t.blocks ∧
+    (t.unlinkChain item).ipb = t.ipb ∧ (t.unlinkChain item).dcap = t.dcap := by
   unfold PTable.unlinkChain
   cases hN : (t.items item).nextCell with
   | none =>
@@ -40,7 +41,8 @@ theorem unlinkOrder_fields (t : PTable) (item : Nat) :
           ((t.unlinkOrder item).items j).key = (t.items j).key ∧ ((t.unlinkOrder item).items j).value = (t.items j).value) ∧
     (t.unlinkOrder item).self = t.self ∧ (t.unlinkOrder item).cap = t.cap ∧ (t.unlinkOrder item).allocated = t.allocated ∧
     (t.unlinkOrder item).heads = t.heads ∧ (t.unlinkOrder item).size = t.size - 1 ∧
-    (t.unlinkOrder item).freeItem = t.freeItem ∧ (t.unlinkOrder item).blocks = t.blocks := by
+    (t.unlinkOrder item).freeItem = t.freeItem ∧ (t.unlinkOrder item).blocks = t.blocks ∧
+    (t.unlinkOrder item).ipb = t.ipb ∧ (t.unlinkOrder item).dcap = t.dcap := by
   unfold PTable.unlinkOrder
   cases hP : (t.items item).prev with
   | none =>
@@ -114,9 +116,9 @@ theorem Rel.removeItem {h : Nat → Nat} {pt : PTable} {t : Table} (hr : Rel pt 
     have := hdll'.2; simp only [headP, GSeg] at this; exact this.2.1
   have hNx : (pt.items id).next = headP Nxt.item l2 (.stl pt.self) := by
     have := hdll'.2; simp only [headP, GSeg] at this; exact GSeg_first Nxt.item some this.2.2
-  obtain ⟨u1, u2, u3, u4, u5, u6, u7, u_self, u_cap, u_alloc, u_begin, u_endPrev, u_size, u_free, u_blocks⟩ :=
+  obtain ⟨u1, u2, u3, u4, u5, u6, u7, u_self, u_cap, u_alloc, u_begin, u_endPrev, u_size, u_free, u_blocks, u_ipb, u_dcap⟩ :=
     unlinkChain_fields pt id
-  obtain ⟨v1, v2, v3, v4, v_begin, v_endPrev, v7, v_self, v_cap, v_alloc, v_heads, v_size, v_free, v_blocks⟩ :=
+  obtain ⟨v1, v2, v3, v4, v_begin, v_endPrev, v7, v_self, v_cap, v_alloc, v_heads, v_size, v_free, v_blocks, v_ipb, v_dcap⟩ :=
     unlinkOrder_fields (pt.unlinkChain id) id
   simp only [(u7 id).1, (u7 id).2.1] at v1 v2 v3 v4 v_begin v_endPrev
   -- membership facts
@@ -129,6 +131,8 @@ theorem Rel.removeItem {h : Nat → Nat} {pt : PTable} {t : Table} (hr : Rel pt 
     · show _ = t.allocated; simp only [PTable.removeItem, PTable.setPrev]; rw [v_alloc, u_alloc, hr.alloc]
     · show _ = t.size - 1; simp only [PTable.removeItem, PTable.setPrev]; rw [v_size, u_size, hr.size]
     · show _ = t.blocks; simp only [PTable.removeItem, PTable.setPrev]; rw [v_blocks, u_blocks, hr.blocks]
+    · show _ = t.ipb; simp only [PTable.removeItem, PTable.setPrev]; rw [v_ipb, u_ipb, hr.ipb]
+    · show _ = t.dcap; simp only [PTable.removeItem, PTable.setPrev]; rw [v_dcap, u_dcap, hr.dcap]
     · intro j
       simp only [PTable.removeItem, PTable.setPrev, Table.removeItem, upd_apply]
       by_cases e : j = id
